@@ -164,6 +164,10 @@ pub fn judge(scn: &Scenario, rr: &RunResult, out: &mut Vec<Viol>) {
     let mut last_tick_begin: Option<(u64, u32)> = None;
     let mut first_restart_mark: Option<usize> = None;
     let mut cleared_to: Option<u32> = None;
+    // C11: the items the snapshot currently lists as matches (a snapshot whose match list did not
+    // change still lists the same items, whatever its accessors return now)
+    let mut snap_matches: Vec<(u32, u32)> = Vec::new();
+    let mut snap_listed: Vec<crate::e2::ItemData> = Vec::new();
     for (oi, o) in obs.iter().enumerate() {
         if matches!(o, Obs::Restart { .. }) && first_restart_mark.is_none() {
             first_restart_mark = Some(out.len());
@@ -199,6 +203,10 @@ pub fn judge(scn: &Scenario, rr: &RunResult, out: &mut Vec<Viol>) {
             Obs::TickBegin { t, gen, .. } => last_tick_begin = Some((*t, *gen)),
             Obs::TickEnd { t, changed, running, before, after, cur_pattern } => {
                 let when = format!("tick ending at t={t}");
+                if after.matches != snap_matches || snap_matches.is_empty() {
+                    snap_matches = after.matches.clone();
+                    snap_listed = after.items.iter().flatten().copied().collect();
+                }
                 check_snapshot_c06(after, &when, out);
                 // C19
                 if !*changed && !before.same_view(after) {
@@ -251,6 +259,10 @@ pub fn judge(scn: &Scenario, rr: &RunResult, out: &mut Vec<Viol>) {
             }
             Obs::Restart { t, clear, before, after, new_gen } => {
                 let when = format!("restart({clear}) at t={t}");
+                if after.matches != snap_matches || snap_matches.is_empty() {
+                    snap_matches = after.matches.clone();
+                    snap_listed = after.items.iter().flatten().copied().collect();
+                }
                 if *clear {
                     if !after.matches.is_empty() || after.item_count != 0 {
                         v(out, "C12", "clear_not_immediate", format!("{when}: snapshot not empty immediately ({} matches, item_count {})", after.matches.len(), after.item_count));
@@ -317,6 +329,9 @@ pub fn judge(scn: &Scenario, rr: &RunResult, out: &mut Vec<Viol>) {
                     }
                     if *cur_gen == Some(k.gen) {
                         v(out, "C11", "e2/dropped_while_current_stream", format!("t={t} after {op}: item {k:?} of the matcher's current stream was destroyed while the matcher is alive"));
+                    }
+                    if cur_gen.is_some() && snap_listed.contains(k) {
+                        v(out, "C11", "e2/dropped_while_snapshot_lists_it", format!("t={t} after {op}: item {k:?} was destroyed although the snapshot still lists it as a match"));
                     }
                 }
             }
